@@ -5,6 +5,10 @@ From Coq Require Import List NArith Bool Lia.
 Import ListNotations.
 Require Import EV.Base EV.Access.
 
+(* the generator could construct each of the five literals in the running implementation *)
+Lemma tables_are_readable : tables_readable = true.
+Proof. reflexivity. Qed.
+
 Lemma merge_acc_holds a i x y :
   match merge_acc x y with
   | Some m => lit_holds a (i,m) = lit_holds a (i,x) && lit_holds a (i,y)
